@@ -125,7 +125,16 @@ def impl_case(case):
         post = pid.get_likelihood_function([t[4] for t in case["terms"]])
         post = "-inf" if post == -np.inf else fhex(post)
     except ValueError: post = "RAISE"
-    return {"singles": singles, "post": post, "g": [fhex(v) for v in g]}
+    # the same point through an interface that samples in log space (log_space_parameters=True): the sampler's coordinates are the
+    # logarithms, the posterior is that of the values (seeded change S6_C16: the 'positive' flag was tested on the coordinate)
+    post_log = None
+    if all(t[4] > 0 for t in case["terms"]):
+        try:
+            pidl = DeterministicInference(names, _M, prior, log_space_parameters=True); pidl.LL_det = _Stub()
+            pl = pidl.get_likelihood_function([math.log(t[4]) for t in case["terms"]])
+            post_log = "-inf" if pl == -np.inf else fhex(pl)
+        except ValueError: post_log = "RAISE"
+    return {"singles": singles, "post": post, "g": [fhex(v) for v in g], "post_log": post_log}
 
 def driver_line(case, r):
     if not r or "g" not in r: return None
@@ -172,7 +181,18 @@ def oracle(case, r):
         # same defect as the -inf case (F13): below exp(-708) the density is a subnormal double and its logarithm loses digits
         return "density underflow: a log-density below -700 (%r) is reported inaccurately (%r, sum of log-densities %r): %r" % (min(logpdf(t) for t in case["terms"]), g, tot, case["terms"])
     if abs(g - tot) > 1e-9 * max(1.0, abs(tot)): return "%s: log-prior %r, sum of log-densities %r: %r" % (_site_of(case), g, tot, case["terms"])
+    # log-space sampling: compared only well inside the supports (exp(log(x)) may differ from x in the last place)
+    pl = r.get("post_log")
+    if pl is not None and all(_well_inside(t) for t in case["terms"]):
+        if pl in ("-inf", "RAISE") or abs(_num(pl) - tot) > 1e-6 * max(1.0, abs(tot)):
+            return "%s: sampled in log space the posterior at the same values is %s, the sum of log-densities is %r: %r" % (_site_of(case), pl if pl in ("-inf", "RAISE") else _num(pl), tot, case["terms"])
     return None
+
+def _well_inside(t):
+    pos, fam, a, b, x = t
+    if fam in ("uniform", "log-uniform"): return a + 1e-6 * (b - a) < x < b - 1e-6 * (b - a)
+    if fam == "beta": return 1e-6 < x < 1 - 1e-6
+    return x > 1e-6 and logpdf(t) > -600
 
 def _site_of(case):
     return "+".join(sorted(set(t[1] for t in case["terms"])))
